@@ -3,6 +3,7 @@ package e2e
 import (
 	"bytes"
 	"fmt"
+	"runtime"
 	"strings"
 	"sync"
 	"sync/atomic"
@@ -18,7 +19,7 @@ import (
 
 // DAction is one step of a delivery history.
 type DAction struct {
-	Kind   string `json:"k"` // write | burst | join | pause | play | leave
+	Kind   string `json:"k"` // write | burst | join | pause | play | leave | pause-burst | leave-burst
 	Reader int    `json:"r,omitempty"`
 	Media  int    `json:"m,omitempty"`
 	Format int    `json:"f,omitempty"`
@@ -35,7 +36,10 @@ type DeliveryCase struct {
 	PubProto  string   `json:"pub_proto,omitempty"`
 	Secure    bool     `json:"secure,omitempty"`
 	Readers   []string `json:"readers"` // udp | tcp | http | ws
-	Queue     int      `json:"queue"`
+	// Skip: per reader, a bit mask of medias the reader does not set up (a reader may play video only); a mask that would
+	// leave nothing is ignored
+	Skip  []int `json:"skip,omitempty"`
+	Queue int   `json:"queue"`
 	StartSeq  []uint16 `json:"start_seq"` // per (media,format) flattened
 	Actions   []DAction
 }
@@ -67,6 +71,7 @@ type dReader struct {
 	playing bool
 	closed  bool
 	ssrc    map[int]uint32 // announced per media (single-format medias)
+	skip    map[int]bool   // medias this reader did not set up
 	// intervals of obligations per stream key: write indices [from,to)
 	from map[int]int
 	must [][3]int // key, from, to
@@ -94,6 +99,8 @@ type dStats struct {
 	JoinErr           string
 	Wrap              bool
 	Lossy             int
+	Abrupt            int // readers that paused or left while packets were being written
+	ReqsDuringBurst   int // requests a playing reader got answered while packets were being written to it
 }
 
 // RunDelivery is the C01 oracle.
@@ -222,7 +229,23 @@ func runDelivery(c DeliveryCase) (*dStats, error) {
 	// ---- readers ----
 	readers := make([]*dReader, len(c.Readers))
 	for i, p := range c.Readers {
-		readers[i] = &dReader{proto: p, ssrc: map[int]uint32{}, from: map[int]int{}}
+		readers[i] = &dReader{proto: p, ssrc: map[int]uint32{}, from: map[int]int{}, skip: map[int]bool{}}
+		if i < len(c.Skip) && c.Skip[i]&(1<<len(c.Formats)-1) != 1<<len(c.Formats)-1 {
+			for mi := range c.Formats {
+				if c.Skip[i]&(1<<mi) != 0 {
+					readers[i].skip[mi] = true
+				}
+			}
+		}
+	}
+	owedKeys := func(r *dReader) int {
+		n := 0
+		for k := range nextSeq {
+			if !r.skip[k/8] {
+				n++
+			}
+		}
+		return n
 	}
 	join := func(r *dReader) error {
 		proto := gortsplib.ProtocolTCP
@@ -245,12 +268,18 @@ func runDelivery(c DeliveryCase) (*dStats, error) {
 			cl.Tunnel = gortsplib.TunnelWebSocket
 		}
 		setupIdx := 0
+		var setupOrder []int // media index of the n-th SETUP
+		for mi := range c.Formats {
+			if !r.skip[mi] {
+				setupOrder = append(setupOrder, mi)
+			}
+		}
 		cl.OnResponse = func(res *base.Response) {
 			if th, ok := res.Header["Transport"]; ok && res.StatusCode == 200 {
 				var t headers.Transport
-				if t.Unmarshal(th) == nil && t.SSRC != nil {
+				if t.Unmarshal(th) == nil && t.SSRC != nil && setupIdx < len(setupOrder) {
 					r.mu.Lock()
-					r.ssrc[setupIdx] = *t.SSRC
+					r.ssrc[setupOrder[setupIdx]] = *t.SSRC
 					r.mu.Unlock()
 				}
 				setupIdx++
@@ -265,7 +294,13 @@ func runDelivery(c DeliveryCase) (*dStats, error) {
 			cl.Close()
 			return fmt.Errorf("reader DESCRIBE: %v", err)
 		}
-		if err := cl.SetupAll(sd.BaseURL, sd.Medias); err != nil {
+		var medias []*description.Media
+		for mi, m := range sd.Medias {
+			if !r.skip[mi] {
+				medias = append(medias, m)
+			}
+		}
+		if err := cl.SetupAll(sd.BaseURL, medias); err != nil {
 			cl.Close()
 			return fmt.Errorf("reader SETUP: %v", err)
 		}
@@ -335,7 +370,7 @@ func runDelivery(c DeliveryCase) (*dStats, error) {
 					}
 				}
 				r.mu.Unlock()
-				if len(seen) == len(nextSeq) {
+				if len(seen) == owedKeys(r) {
 					break
 				}
 				if time.Until(deadline) < 4700*time.Millisecond && (st.Lossy > 0 || writeErrs > 0 || w.H.hasEvent("writeerr")) {
@@ -356,7 +391,7 @@ func runDelivery(c DeliveryCase) (*dStats, error) {
 					r.mu.Unlock()
 					missing := ""
 					for k := range nextSeq {
-						if !seen[k] {
+						if !seen[k] && !r.skip[k/8] {
 							fwdMu.Lock()
 							fr := fwdRefused[k][written[k][len(written[k])-1].seq]
 							fwdMu.Unlock()
@@ -373,7 +408,7 @@ func runDelivery(c DeliveryCase) (*dStats, error) {
 	}
 	closeInterval := func(r *dReader) {
 		for k := range nextSeq {
-			if len(written[k]) > r.from[k] {
+			if len(written[k]) > r.from[k] && !r.skip[k/8] {
 				r.must = append(r.must, [3]int{k, r.from[k], len(written[k])})
 			}
 		}
@@ -433,6 +468,91 @@ func runDelivery(c DeliveryCase) (*dStats, error) {
 				r.playing = false
 				st.MidJoin = true
 			}
+		case "req-burst":
+			// a reader that sends requests while packets are being written to it: responses and frames share its connection.
+			// The only requests a playing client can be made to send are PAUSE and PLAY: it pauses and resumes at once, as
+			// often as the burst lasts; what is written meanwhile is owed to the other readers only
+			r := readers[a.Reader%len(readers)]
+			if r.c == nil || r.closed || !r.playing || a.Media >= len(c.Formats) || a.Format >= c.Formats[a.Media] {
+				break
+			}
+			if err := flush(); err != nil {
+				return st, err
+			}
+			closeInterval(r)
+			burstDone := make(chan struct{})
+			go func() {
+				defer close(burstDone)
+				for i := 0; i < a.N; i++ {
+					doWrite(a.Media, a.Format, a.Size, i == a.N-1, a.TS+uint32(i))
+					if i%8 == 7 {
+						runtime.Gosched()
+					}
+				}
+			}()
+			var aerr error
+		reqs:
+			for {
+				if _, err := r.c.Pause(); err != nil {
+					aerr = fmt.Errorf("action %d: reader PAUSE (while packets were being written to it) failed: %v", ai, err)
+					break
+				}
+				if _, err := r.c.Play(nil); err != nil {
+					aerr = fmt.Errorf("action %d: reader PLAY (resuming while packets were being written) failed: %v", ai, err)
+					break
+				}
+				st.ReqsDuringBurst += 2
+				select {
+				case <-burstDone:
+					break reqs
+				default:
+				}
+			}
+			<-burstDone
+			if aerr != nil {
+				return st, aerr
+			}
+			for k := range nextSeq {
+				r.from[k] = len(written[k])
+			}
+			st.MidJoin = true
+		case "pause-burst", "leave-burst":
+			// a reader that pauses or leaves while packets are being written: what is written from here on is owed to the
+			// other readers only, but whatever of it still reaches this one has to be in order, once, and intact
+			r := readers[a.Reader%len(readers)]
+			if r.c == nil || r.closed || !r.playing || a.Media >= len(c.Formats) || a.Format >= c.Formats[a.Media] {
+				break
+			}
+			if err := flush(); err != nil {
+				return st, err
+			}
+			closeInterval(r)
+			burstDone := make(chan struct{})
+			go func() {
+				defer close(burstDone)
+				for i := 0; i < a.N; i++ {
+					doWrite(a.Media, a.Format, a.Size, i == a.N-1, a.TS+uint32(i))
+					if i%8 == 7 {
+						runtime.Gosched()
+					}
+				}
+			}()
+			var aerr error
+			if a.Kind == "pause-burst" {
+				if _, err := r.c.Pause(); err != nil {
+					aerr = fmt.Errorf("action %d: reader PAUSE (while packets were being written) failed: %v", ai, err)
+				}
+			} else {
+				aerr = within(8*time.Second, "reader Close (while packets were being written)", r.c.Close)
+				r.closed = true
+			}
+			<-burstDone
+			if aerr != nil {
+				return st, aerr
+			}
+			r.playing = false
+			st.MidJoin = true
+			st.Abrupt++
 		case "play":
 			r := readers[a.Reader%len(readers)]
 			if r.c != nil && !r.playing && !r.closed {
@@ -489,6 +609,9 @@ func runDelivery(c DeliveryCase) (*dStats, error) {
 		for gi, g := range got {
 			if g.media < 0 || g.format < 0 {
 				return st, fmt.Errorf("reader %d: packet %d delivered for a media/format that is not part of the description", ri, gi)
+			}
+			if r.skip[g.media] {
+				return st, fmt.Errorf("reader %d (%s): packet %d delivered for media %d, which this reader did not set up", ri, r.proto, gi, g.media)
 			}
 			k := key(g.media, g.format)
 			ws := written[k]
